@@ -39,7 +39,8 @@ KeySet(e) == {e.keys[i] : i \in 1..Len(e.keys)}
 Stored(e) == {k \in DOMAIN FS(e) : k[1] = e.cache}
 InFlight(e) == {k \in DOMAIN OI(e) : k[1] = e.cache}
 Base0(e) == Get(BA(e), e.cache, KeySet(e))
-A5(e) == /\ \A k \in Stored(e) : k[2] \in KeySet(e)
+A5(e) == "?unreadable" \in KeySet(e) \/
+         /\ \A k \in Stored(e) : k[2] \in KeySet(e)
          /\ \A x \in KeySet(e) : x \in Base0(e) \/ <<e.cache, x>> \in InFlight(e)
 ClauseNames == <<"A1", "A2", "A3", "A4", "A5">>
 Clauses(e) == [A1 |-> A1(e), A2 |-> A2(e), A3 |-> A3(e), A4 |-> A4(e), A5 |-> A5(e)]
